@@ -10,11 +10,13 @@ Local Open Scope Z_scope.
 Section SnodeInd.
   Variable P : snode -> Prop.
   Hypothesis Hleaf : forall ex l, P (SLeaf ex l).
+  Hypothesis Hor : forall ex alts nu, P (SOr ex alts nu).
   Hypothesis Harr : forall items mn mx nu, Forall P items -> P (SArr items mn mx nu).
   Hypothesis Hobj : forall ms ap nu, Forall (fun m => P (snd (snd m))) ms -> P (SObj ms ap nu).
   Fixpoint snode_ind' (n : snode) : P n :=
     match n with
     | SLeaf ex l => Hleaf ex l
+    | SOr ex alts nu => Hor ex alts nu
     | SArr items mn mx nu =>
       Harr items mn mx nu ((fix go (l : list snode) : Forall P l :=
                               match l with [] => Forall_nil P | x :: r => Forall_cons x (snode_ind' x) (go r) end) items)
@@ -31,11 +33,17 @@ End SnodeInd.
 Definition lit_ok (v : bytes) : Prop := exp_small v /\ (lit_kind v = KNull -> v = w_null_lit).
 Definition leaf_rules_ok (l : leaf) : Prop := match l with LAny => True | Leaf _ rules => bounds_readable rules end.
 
+(* the loader admits an enum rule only in an alternative of type "enum" *)
+Definition alt_wf (l : leaf) : Prop := match l with Leaf KNull rules => existsb is_enum rules = false | _ => True end.
+
 (* what Check() has established for the schema: every example satisfies the rules next to it, item counts are within
    minItems/maxItems, keys are distinct *)
 Fixpoint accepted (n : snode) : Prop :=
   match n with
   | SLeaf ex l => validate l (Some ex) ex = true /\ lit_ok ex /\ leaf_rules_ok l
+  | SOr ex alts nu =>
+    lit_ok ex /\ (forall l, In (OALeaf l) alts -> leaf_rules_ok l /\ alt_wf l) /\
+    ((nu = true /\ ex = w_null_lit) \/ exists l, In (OALeaf l) alts /\ validate l (Some ex) ex = true)
   | SArr items mn mx _ =>
     (forall m, mn = Some m -> m <= Z.of_nat (length items)) /\ (forall m, mx = Some m -> Z.of_nat (length items) <= m) /\
     (fix all (l : list snode) : Prop := match l with [] => True | x :: r => accepted x /\ all r end) items
@@ -57,6 +65,8 @@ Proof. induction ms as [|y r IH]; intros H x Hx; [inversion Hx|]. destruct H as 
    additionalProperties says; null where nullable *)
 Inductive inst : snode -> jval -> Prop :=
 | in_leaf ex l v : validate l (Some ex) v = true -> lit_ok v -> inst (SLeaf ex l) (JLit v)
+| in_or_null ex alts : inst (SOr ex alts true) (JLit w_null_lit)
+| in_or ex alts nu l v : In (OALeaf l) alts -> validate l (Some ex) v = true -> lit_ok v -> inst (SOr ex alts nu) (JLit v)
 | in_arr_null items mn mx : inst (SArr items mn mx true) (JLit w_null_lit)
 | in_obj_null ms ap : inst (SObj ms ap true) (JLit w_null_lit)
 | in_arr items mn mx nu vs :
@@ -85,19 +95,30 @@ Qed.
 (* the translation is sound for every value the schema accepts *)
 Theorem tree_sound : forall n, accepted n -> forall v, inst n v -> tvalid (to_otree n) v.
 Proof.
-  induction n as [ex l|items mn mx nu IH|ms ap nu IH] using snode_ind'; intros Hacc v Hi.
-  - inversion Hi as [? ? v0 Hv [Hs Hn]| | | |]; subst. cbn [to_otree]. constructor.
+  induction n as [ex l|ex alts nu|items mn mx nu IH|ms ap nu IH] using snode_ind'; intros Hacc v Hi.
+  - inversion Hi as [? ? v0 Hv [Hs Hn]| | | | | |]; subst. cbn [to_otree]. constructor.
     destruct Hacc as (Hex & [Hes Hen] & Hr). destruct l as [k rules|].
     + exact (oasx_sound ex k rules v0 Hs Hr Hn Hen Hex Hv).
     + right. cbn. repeat split; try exact I; intros; discriminate.
-  - cbn [to_otree]. inversion Hi as [|? ? ?| |? ? ? ? vs Hmn Hmx Hempty Hall|]; subst; [constructor|].
+  - cbn [to_otree]. destruct Hacc as (_ & Halts & _).
+    assert (Hnullnode : forall v0, tvalid (OLeaf (mk_oasx None None None None None None None nu)) (JLit v0))
+      by (intros v0; constructor; right; cbn; repeat split; try exact I; intros; discriminate).
+    inversion Hi as [|? ?|? ? ? l v0 Hin Hv [Hs Hn]| | | |]; subst.
+    { destruct (lit_kind ex); try apply tv_any_null; apply Hnullnode. }
+    destruct (lit_kind ex) eqn:Kex; try apply Hnullnode.
+    all: apply (tv_any _ _ (OLeaf (to_oasx_alt ex l))).
+    all: try (apply in_map_iff; exists (OALeaf l); split; [reflexivity|exact Hin]).
+    all: (constructor; destruct (Halts l Hin) as [Hr Hwf]; destruct l as [k rules|];
+          [apply (oasx_alt_sound ex k rules v0 Hs Hr Hn Hv); intros ->; exact Hwf
+          |right; cbn; repeat split; try exact I; intros; discriminate]).
+  - cbn [to_otree]. inversion Hi as [| | |? ? ?| |? ? ? ? vs Hmn Hmx Hempty Hall|]; subst; [constructor|].
     destruct Hacc as (_ & _ & Hitems).
     apply tv_arr.
     + intros m Hm. apply int64_opt_some in Hm. exact (Hmn m Hm).
     + intros m Hm. destruct items as [|i0 ir]; [inversion Hm; subst; rewrite (Hempty eq_refl); cbn; lia|]. apply int64_opt_some in Hm. exact (Hmx m Hm).
     + intros x Hx. right. destruct (Hall x Hx) as (it & Hit & Hinst). exists (to_otree it). split; [apply in_map; exact Hit|].
       rewrite Forall_forall in IH. exact (IH it Hit (accepted_items items Hitems it Hit) x Hinst).
-  - cbn [to_otree]. inversion Hi as [| |? ?| |? ? ? vs Hreq Hall]; subst; [constructor|].
+  - cbn [to_otree]. inversion Hi as [| | | |? ?| |? ? ? vs Hreq Hall]; subst; [constructor|].
     destruct Hacc as (Hnd & Hms).
     apply tv_obj.
     + intros k Hk. apply in_map_iff in Hk. destruct Hk as ([k' [o n]] & Hk' & Hf). cbn [fst] in Hk'. subst k'.
@@ -120,8 +141,9 @@ Qed.
 (* the schema's own example is one of the values it accepts ... *)
 Theorem example_inst : forall n, accepted n -> inst n (example n).
 Proof.
-  induction n as [ex l|items mn mx nu IH|ms ap nu IH] using snode_ind'; intros Hacc; cbn [example].
+  induction n as [ex l|ex alts nu|items mn mx nu IH|ms ap nu IH] using snode_ind'; intros Hacc; cbn [example].
   - destruct Hacc as (Hex & Hlit & _). constructor; assumption.
+  - destruct Hacc as (Hlit & _ & [[-> ->]|(l & Hin & Hv)]); [apply in_or_null|exact (in_or ex alts nu l ex Hin Hv Hlit)].
   - destruct Hacc as (Hmn & Hmx & Hitems). apply in_arr.
     + intros m Hm. rewrite map_length. exact (Hmn m Hm).
     + intros m Hm. rewrite map_length. exact (Hmx m Hm).
